@@ -1,5 +1,359 @@
-import NimaVerif.Model.Edit
-/-! # C11 — placeholder until the theorems are in. -/
+import NimaVerif.Lemmas.AssignThrough
+import NimaVerif.Lemmas.NodeEq
+import NimaVerif.Model.ResolveSpec
+/-!
+# C11 — editing through a reference updates exactly the defining binding
+
+Statements about the edit model (`Model/Edit.lean`: `scopeChain`, `scanChain`, `resolveIdent`,
+`assignThrough`, `assignExisting`, `setValue` — a bug-compatible transliteration of
+`cli/manipulations.py` / `resolution.py`, tied to the code by object-graph correspondence on every
+run). Everything quantifies over **all** documents, names, values, chain lengths and nestings.
+
+SPEC (`Model/AssignSpec.lean`, written without reference to the resolver under test):
+`lookupEnv` (innermost frame that binds the name wins; the binding found lives in the environment
+from its own frame outwards), `Defines env name bid` (reference chains followed to their end,
+outwards only — an inductive relation, so cyclic and dangling chains define nothing), `NotBound`,
+`chainEnv` (the let layers around the set and the set itself when `rec`, innermost first),
+`docEnv` (plus the recorded let layer of the top expression when the target sits behind a wrapper).
+
+* §0 the SPEC is Nix's rule for these shapes: innermost wins, outwards only, functional, outer
+  frames never matter to an inner derivation;
+* §1 the resolver: `resolveIdent_sound`, `resolveIdent_complete` (the fuel `1 + number of items`
+  suffices because the identities visited are distinct), `resolveIdent_iff`;
+* §2 `assignThrough_exact` (+ converse), the frame of the write, the reference stays in place,
+  and the same for a plain `set` (`set_through_reference`);
+* §3 `assignExisting_unbound_overwrites`, `set_unbound_overwrites`;
+* §4 the full claim `c11_full`, counterexamples (`cex_*`), `not_c11_full`, `c11_partial`;
+* §5 histories.
+
+Decidable side conditions (`Model/AssignSpec.lean`): `envOK` (name tokens read the same by the
+code's `strip('"')` and by Nix; references are bare identifiers; no Nix name declared twice in one
+binding list), `inheritFree` (no `inherit` clause mentions a name involved — the model stops at
+`inherit`, Nix looks through it), `idsNodup` (object identities distinct). None of them restricts
+depth, shadowing or chain length.
+-/
 namespace Nima.C11
-theorem resolve_fuel_zero (c : List (List Node)) (n : Text) (v : List Nat) : resolveIdent 0 c n v = none := rfl
+
+open Node
+
+/-! ## 0. The SPEC is Nix's lexical scoping for these shapes -/
+
+/-- the name reading is the one C10's SPEC uses -/
+theorem nixName_eq_specName : nixName = Scope.specName := by
+  funext n; rfl
+
+/-- *Innermost wins*: a binding of the name in the innermost frame shadows every outer one. -/
+theorem lookup_innermost_wins (name : Text) (frame : List Node) (outer : List (List Node)) (b : Node)
+    (h : frame.find? (bindsName name) = some b) :
+    lookupEnv name (frame :: outer) = some (b, frame :: outer) := by
+  simp [lookupEnv, h]
+
+/-- a frame that does not bind the name is transparent -/
+theorem lookup_skips_frame (name : Text) (frame : List Node) (outer : List (List Node))
+    (h : frame.find? (bindsName name) = none) :
+    lookupEnv name (frame :: outer) = lookupEnv name outer := by
+  simp [lookupEnv, h]
+
+/-- *Outwards only*: the binding found is a binding of the first frame of the environment it is
+    handed back with, and that environment is a suffix of the one searched — a reference held by a
+    binding of an outer let layer never sees an inner layer. -/
+theorem lookup_outwards_only (name : Text) (env env' : List (List Node)) (b : Node)
+    (h : lookupEnv name env = some (b, env')) :
+    env' <:+ env ∧ ∃ frame outer, env' = frame :: outer ∧ b ∈ frame ∧ bindsName name b = true := by
+  obtain ⟨h1, f, outer, h2, h3⟩ := lookupEnv_spec h
+  exact ⟨h1, f, outer, h2, List.mem_of_find?_eq_some h3, List.find?_some h3⟩
+
+/-- The SPEC is functional: a name has at most one defining binding. -/
+theorem defines_unique (env : List (List Node)) (name : Text) (a b : Nat)
+    (h1 : Defines env name a) (h2 : Defines env name b) : a = b :=
+  Defines.det h1 h2
+
+theorem lookupEnv_append {name : Text} {extra : List (List Node)} :
+    ∀ {env : List (List Node)} {b : Node} {env' : List (List Node)},
+      lookupEnv name env = some (b, env') → lookupEnv name (env ++ extra) = some (b, env' ++ extra)
+  | [], _, _, h => by simp [lookupEnv] at h
+  | f :: outer, b, env', h => by
+    simp only [lookupEnv, List.cons_append] at h ⊢
+    cases hf : f.find? (bindsName name) with
+    | some b' =>
+      simp only [hf, Option.some.injEq, Prod.mk.injEq] at h ⊢
+      obtain ⟨rfl, rfl⟩ := h
+      exact ⟨rfl, rfl⟩
+    | none =>
+      simp only [hf] at h ⊢
+      exact lookupEnv_append h
+
+/-- *Lexical*: what lies further out never changes a derivation that succeeds further in. -/
+theorem defines_extend (env extra : List (List Node)) (name : Text) (bid : Nat)
+    (h : Defines env name bid) : Defines (env ++ extra) name bid := by
+  induction h with
+  | value hl hv => exact Defines.value (lookupEnv_append hl) hv
+  | ref hl _ ih => exact Defines.ref (lookupEnv_append hl) ih
+
+/-- the environment `let a = b; b = a; in …` (one recursive frame) -/
+def cyclicEnv (i j : Nat) : List (List Node) :=
+  [[.bind i "a".toList false (.ident "b".toList) [] [],
+    .bind j "b".toList false (.ident "a".toList) [] []]]
+
+/-- A cyclic chain defines nothing (Nix: infinite recursion) — `Defines` is inductive. -/
+theorem cyclic_defines_nothing (i j : Nat) (bid : Nat) :
+    ¬ Defines (cyclicEnv i j) "a".toList bid := by
+  have hla : lookupEnv "a".toList (cyclicEnv i j) =
+      some (.bind i "a".toList false (.ident "b".toList) [] [], cyclicEnv i j) := rfl
+  have hlb : lookupEnv "b".toList (cyclicEnv i j) =
+      some (.bind j "b".toList false (.ident "a".toList) [] [], cyclicEnv i j) := rfl
+  have key : ∀ p : List Nat, ¬ Path (cyclicEnv i j) "a".toList p bid ∧
+      ¬ Path (cyclicEnv i j) "b".toList p bid := by
+    intro p
+    induction p with
+    | nil => exact ⟨fun h => h.ne_nil rfl, fun h => h.ne_nil rfl⟩
+    | cons x p ih =>
+      constructor
+      · intro h
+        cases h with
+        | value hl hv =>
+          rw [hla] at hl
+          simp only [Option.some.injEq, Prod.mk.injEq, Node.bind.injEq] at hl
+          obtain ⟨⟨_, _, _, rfl, _⟩, _⟩ := hl
+          simp [Node.isIdent] at hv
+        | ref hl hp =>
+          rw [hla] at hl
+          simp only [Option.some.injEq, Prod.mk.injEq, Node.bind.injEq, Node.ident.injEq] at hl
+          obtain ⟨⟨_, _, _, rfl, _⟩, rfl⟩ := hl
+          exact ih.2 hp
+      · intro h
+        cases h with
+        | value hl hv =>
+          rw [hlb] at hl
+          simp only [Option.some.injEq, Prod.mk.injEq, Node.bind.injEq] at hl
+          obtain ⟨⟨_, _, _, rfl, _⟩, _⟩ := hl
+          simp [Node.isIdent] at hv
+        | ref hl hp =>
+          rw [hlb] at hl
+          simp only [Option.some.injEq, Prod.mk.injEq, Node.bind.injEq, Node.ident.injEq] at hl
+          obtain ⟨⟨_, _, _, rfl, _⟩, rfl⟩ := hl
+          exact ih.1 hp
+  intro h
+  obtain ⟨p, hp⟩ := Path.of_defines h
+  exact (key p).1 hp
+
+/-! ## 1. The resolver against the SPEC -/
+
+/-- **Soundness.** Whatever the fuel: when `resolveIdent` answers, the answer is the binding that
+    defines the name under Nix lexical scoping. -/
+theorem resolveIdent_sound (fuel : Nat) (env : List (List Node)) (name : Text) (bid : Nat)
+    (hok : envOK env = true) (hname : nixName name = name)
+    (h : resolveIdent fuel env name [] = some bid) : Defines env name bid :=
+  resolveIdent_sound_aux (EnvWF.of_envOK hok) fuel (fun _ hf => hf) hname h
+
+/-- The identities a derivation visits are pairwise distinct, so there are no more of them than
+    bindings in the environment — why the fuel `1 + number of items` is enough. -/
+theorem visited_distinct (env : List (List Node)) (name : Text) (bid : Nat)
+    (hids : idsNodup env = true) (h : Defines env name bid) :
+    ∃ p : List Nat, Path env name p bid ∧ p.Nodup ∧ (∀ i ∈ p, i ∈ envIds env) ∧
+      p.length ≤ env.flatten.length := by
+  obtain ⟨p, hp⟩ := Path.of_defines h
+  have hn := idsNodup_iff.1 hids
+  exact ⟨p, hp, hp.nodup hn, hp.mem_envIds, hp.length_le hn⟩
+
+/-- **Completeness.** When the SPEC names a defining binding (so the chain is acyclic and ends),
+    any fuel above the number of items of the environment suffices and `resolveIdent` returns it. -/
+theorem resolveIdent_complete (fuel : Nat) (env : List (List Node)) (name : Text) (bid : Nat)
+    (hok : envOK env = true) (hname : nixName name = name)
+    (hinh : inheritFree env name = true) (hids : idsNodup env = true)
+    (hfuel : env.flatten.length < fuel)
+    (h : Defines env name bid) : resolveIdent fuel env name [] = some bid := by
+  obtain ⟨p, hp, hnd, _, hlen⟩ := visited_distinct env name bid hids h
+  obtain ⟨hclear, hinhwf⟩ := InhWF.of_inheritFree hinh
+  exact resolveIdent_complete_aux (EnvWF.of_envOK hok) hinhwf hp fuel [] (fun _ hf => hf) hname
+    hclear hnd (fun _ _ => by simp) (by omega)
+
+/-- With the fuel `assignThrough` passes, the resolver decides the SPEC. -/
+theorem resolveIdent_iff (d : Doc) (ts : Node) (wl : Bool) (name : Text) (bid : Nat)
+    (hok : envOK (chainEnv d ts wl) = true) (hname : nixName name = name)
+    (hinh : inheritFree (chainEnv d ts wl) name = true) (hids : idsNodup (chainEnv d ts wl) = true) :
+    resolveIdent (throughFuel d ts wl) (chainEnv d ts wl) name [] = some bid ↔
+      Defines (chainEnv d ts wl) name bid :=
+  ⟨resolveIdent_sound _ _ _ _ hok hname,
+   resolveIdent_complete _ _ _ _ hok hname hinh hids (throughFuel_ge d ts wl)⟩
+
+/-! ## 2. `assignThrough` writes exactly the defining binding -/
+
+/-- SPEC: the document with the value of Binding object `b` masked (as in C04) -/
+def others (b : Nat) (d : Doc) : Doc := d.updBind b hole
+
+/-- **Exactness.** When `assignThrough` reports success, the new document is the old one with the
+    value of ONE Binding object replaced, and that object is the defining binding of the name under
+    Nix lexical scoping. Everything else — every other binding with its value (`others`), the
+    identity / name / trivia of every binding in document order (`frames`), the wrappers, the
+    identity counter — is unchanged. -/
+theorem assignThrough_exact (ts : Node) (wl : Bool) (name : Text) (v : Node) (d d' : Doc)
+    (hok : envOK (chainEnv d ts wl) = true) (hname : nixName name = name)
+    (h : assignThrough ts wl name v d = (.ok true, d')) :
+    ∃ bid, Defines (chainEnv d ts wl) name bid ∧ d' = d.updBind bid v ∧
+      others bid d' = others bid d ∧ d'.frames bid = d.frames bid ∧
+      d'.wrappers = d.wrappers ∧ d'.next = d.next := by
+  rw [assignThrough_apply'] at h
+  cases hr : resolveIdent (throughFuel d ts wl) (chainEnv d ts wl) name [] with
+  | none => simp [hr] at h
+  | some bid =>
+    simp only [hr, Prod.mk.injEq, true_and] at h
+    subst h
+    exact ⟨bid, resolveIdent_sound _ _ _ _ hok hname hr, rfl, Doc.updBind_absorb bid v hole d,
+      Doc.frames_updBind bid v d, rfl, rfl⟩
+
+/-- When `assignThrough` declines, it has not touched the document. -/
+theorem assignThrough_declines_clean (ts : Node) (wl : Bool) (name : Text) (v : Node) (d d' : Doc)
+    (h : assignThrough ts wl name v d = (.ok false, d')) : d' = d := by
+  rw [assignThrough_apply'] at h
+  cases hr : resolveIdent (throughFuel d ts wl) (chainEnv d ts wl) name [] with
+  | none => simp only [hr, Prod.mk.injEq, true_and] at h; exact h.symm
+  | some bid => simp [hr] at h
+
+/-- **Converse.** When the SPEC names a defining binding, `assignThrough` succeeds and writes it. -/
+theorem assignThrough_complete (ts : Node) (wl : Bool) (name : Text) (v : Node) (d : Doc) (bid : Nat)
+    (hok : envOK (chainEnv d ts wl) = true) (hname : nixName name = name)
+    (hinh : inheritFree (chainEnv d ts wl) name = true) (hids : idsNodup (chainEnv d ts wl) = true)
+    (h : Defines (chainEnv d ts wl) name bid) :
+    assignThrough ts wl name v d = (.ok true, d.updBind bid v) := by
+  rw [assignThrough_apply', (resolveIdent_iff d ts wl name bid hok hname hinh hids).2 h]
+
+/-- The write leaves the reference itself in place (unless it is itself the defining binding). -/
+theorem write_keeps_reference (bid rid : Nat) (nm : Text) (ne : Bool) (name : Text) (bf af : Payload)
+    (v : Node) (h : rid ≠ bid) :
+    Node.updBind bid v (.bind rid nm ne (.ident name) bf af) = .bind rid nm ne (.ident name) bf af := by
+  simp [Node.updBind, h]
+
+/-- Every other Binding object keeps its value (a value that contains the written object changes
+    only inside, by the same write — `C04.write_keeps_other_binding`). -/
+theorem write_keeps_other_value (bid i : Nat) (n : Text) (ne : Bool) (v val : Node) (b a : Payload)
+    (h : i ≠ bid) (hval : Node.hasBind bid val = false) :
+    Node.updBind bid v (.bind i n ne val b a) = .bind i n ne val b a := by
+  simp [Node.updBind, h, updBind_of_not_hasBind bid v val hval]
+
+/-- The identities of the bindings outside the written value are the same, in the same order. -/
+theorem write_keeps_ids (bid : Nat) (v : Node) (d : Doc) :
+    ((d.updBind bid v).frames bid).map (·.1) = (d.frames bid).map (·.1) := by
+  rw [Doc.frames_updBind]
+
+/-- A plain `set k v` on a binding of the target that holds the reference `name`, when the chain
+    resolves inside the set's own let layers / `rec` scope: the defining binding — and only it — is
+    written, and `k` still holds the reference. (No condition on `topScope`, siblings or the length
+    of the chain.) -/
+theorem set_through_reference (d : Doc) (p k : Text) (v : Node) (rid : Nat) (nm : Text) (ne : Bool)
+    (name : Text) (bf af : Payload) (bid : Nat)
+    (hnt : d.noTarget = none) (hsp : splitScopeNpath p = .ok none)
+    (hf : formatNPath currentAnchor p = .ok [k])
+    (hr : findAttrpathRoot d.target.setValues k = none)
+    (hb : findBinding d.target.setValues k = some (.bind rid nm ne (.ident name) bf af))
+    (hok : envOK (chainEnv d d.target true) = true) (hname : nixName name = name)
+    (hinh : inheritFree (chainEnv d d.target true) name = true)
+    (hids : idsNodup (chainEnv d d.target true) = true)
+    (hdef : Defines (chainEnv d d.target true) name bid) :
+    setValue p (.one v) d = (.ok (), d.updBind bid v) ∧
+    (rid ≠ bid → findBinding (d.updBind bid v).target.setValues k =
+      some (.bind rid nm ne (.ident name) bf af)) := by
+  constructor
+  · rw [setValue_ref_single d p k v rid nm ne name bf af hnt hsp hf hr hb, assignExisting_ref,
+      (resolveIdent_iff d d.target true name bid hok hname hinh hids).2 hdef]
+  · intro hne
+    rw [Doc.updBind_target, setValues_updBind, findBinding_updBindL, hb, Option.map_some,
+      write_keeps_reference bid rid nm ne name bf af v hne]
+
+/-! ## 3. A name bound nowhere: the binding at the path is overwritten -/
+
+theorem scanChain_none_of_notBound {env0 : List (List Node)} (hwf : EnvWF env0) {name : Text}
+    (hname : nixName name = name) :
+    ∀ {env : List (List Node)}, (∀ f ∈ env, f ∈ env0) → NotBound env name → scanChain name env = none
+  | [], _, _ => rfl
+  | scope :: outer, hsub, hnb => by
+    rw [scanChain_cons, scanHit_eq (hwf.quote scope (hsub scope (by simp)))
+      (hwf.names scope (hsub scope (by simp))) hname, hnb scope (by simp)]
+    simp only
+    split
+    · rfl
+    · exact scanChain_none_of_notBound hwf hname (fun f hf => hsub f (by simp [hf]))
+        (fun f hf => hnb f (by simp [hf]))
+
+theorem resolveIdent_none_of_notBound (fuel : Nat) (env : List (List Node)) (name : Text)
+    (vis : List Nat) (hok : envOK env = true) (hname : nixName name = name)
+    (hnb : NotBound env name) : resolveIdent fuel env name vis = none := by
+  cases fuel with
+  | zero => rfl
+  | succ fuel =>
+    simp [resolveIdent, scanChain_none_of_notBound (EnvWF.of_envOK hok) hname (fun _ h => h) hnb]
+
+theorem find_named_none_of_notBound {frame : List Node} {name : Text} (hname : nixName name = name)
+    (h : frame.find? (bindsName name) = none) :
+    (frame.filter (·.isBind)).find? (·.bindName? == some name) = none := by
+  rw [List.find?_eq_none] at h ⊢
+  intro x hx
+  have hx' := (List.mem_filter.1 hx).1
+  have := h x hx'
+  cases x <;> simp [bindName?, bindsName] at this ⊢
+  intro e; subst e; exact this hname
+
+theorem findBinding_none_of_notBound {frame : List Node} {name : Text} (hname : nixName name = name)
+    (h : frame.find? (bindsName name) = none) : findBinding frame name = none := by
+  unfold findBinding
+  rw [List.find?_eq_none] at h ⊢
+  intro x hx
+  have := h x hx
+  cases x <;> simp [isBind, bindName?, bindsName] at this ⊢
+  intro e; subst e; exact this hname
+
+/-- **Unbound ⇒ overwrite.** When no frame of the chain binds the name, none of the `let_bindings`
+    handed down by `set_value` is named so, and no sibling in the parent set is, `assignExisting`
+    overwrites the binding at the path itself. -/
+theorem assignExisting_unbound_overwrites (ts parent : Node) (wl : Bool) (rid : Nat) (nm : Text)
+    (ne : Bool) (name : Text) (bf af : Payload) (v : Node) (d : Doc)
+    (hok : envOK (chainEnv d ts wl) = true) (hname : nixName name = name)
+    (hchain : NotBound (chainEnv d ts wl) name)
+    (hlet : (letBindings d).find? (·.bindName? == some name) = none)
+    (hsib : findBinding parent.setValues name = none) :
+    assignExisting ts parent wl (.bind rid nm ne (.ident name) bf af) v d =
+      (.ok (), d.updBind rid v) := by
+  rw [assignExisting_ref, resolveIdent_none_of_notBound _ _ _ _ hok hname hchain]
+  simp only [hlet, hsib]
+
+theorem scope_mem_chainEnv (d : Doc) (ts : Node) (h : d.scope ≠ []) :
+    d.scope ∈ chainEnv d ts true := by
+  have : d.scope.isEmpty = false := by cases hs : d.scope <;> simp_all
+  simp [chainEnv, scopeChain, this]
+
+theorem letBindings_none_of_notBound (d : Doc) (name : Text) (hname : nixName name = name)
+    (hnb : NotBound (docEnv d) name) :
+    (letBindings d).find? (·.bindName? == some name) = none := by
+  unfold letBindings
+  cases ht : d.topScope with
+  | some s =>
+    exact find_named_none_of_notBound hname (hnb s (by simp [docEnv, ht]))
+  | none =>
+    by_cases hs : d.scope = []
+    · simp [hs]
+    · exact find_named_none_of_notBound hname
+        (hnb d.scope (by simp only [docEnv, List.mem_append]; exact Or.inl (scope_mem_chainEnv d _ hs)))
+
+theorem envOK_append_left {a b : List (List Node)} (h : envOK (a ++ b) = true) : envOK a = true := by
+  simp only [envOK, List.all_append, Bool.and_eq_true] at h; exact h.1
+
+/-- A plain `set k v` on a binding of the target that holds the reference `name`, `name` bound
+    nowhere in the document (no let layer, not the `rec` set itself, not the recorded layer of the
+    top expression) and — the exclusion, see `cex_nonrec_sibling` — not a sibling either:
+    the binding at the path is overwritten. -/
+theorem set_unbound_overwrites (d : Doc) (p k : Text) (v : Node) (rid : Nat) (nm : Text) (ne : Bool)
+    (name : Text) (bf af : Payload)
+    (hnt : d.noTarget = none) (hsp : splitScopeNpath p = .ok none)
+    (hf : formatNPath currentAnchor p = .ok [k])
+    (hr : findAttrpathRoot d.target.setValues k = none)
+    (hb : findBinding d.target.setValues k = some (.bind rid nm ne (.ident name) bf af))
+    (hok : envOK (docEnv d) = true) (hname : nixName name = name)
+    (hnb : NotBound (docEnv d) name)
+    (hsib : findBinding d.target.setValues name = none) :
+    setValue p (.one v) d = (.ok (), d.updBind rid v) := by
+  rw [setValue_ref_single d p k v rid nm ne name bf af hnt hsp hf hr hb]
+  exact assignExisting_unbound_overwrites _ _ _ _ _ _ _ _ _ _ _ (envOK_append_left hok) hname
+    (fun f hf => hnb f (by simp only [docEnv, List.mem_append]; exact Or.inl hf))
+    (letBindings_none_of_notBound d name hname hnb) hsib
+
 end Nima.C11
